@@ -209,7 +209,27 @@ def check_write(case, ctx):
         ctx.count("write:constant_output")
     if any(o for o in net.outputs if net.types[o] == "input"):
         ctx.count("write:input_output")
-    ok, text = ctx.call(cg.io.circuit_to_bench, c)
+    via_file = len(cd["nodes"]) % 4 == 1
+    if via_file:
+        import os
+        import tempfile
+
+        d = tempfile.mkdtemp(prefix="verif-c15-")
+        path = os.path.join(d, f"{c.name}.bench")
+        ok, text = ctx.call(cg.to_file, c, path, fmt="bench")
+        if ok:
+            text = open(path).read()
+            okf, cf = ctx.call(cg.from_file, path)
+            ctx.count("via_bench_file")
+            if not okf:
+                ctx.violation("bench_file_readback_raised", f"from_file on the written .bench raised {cf!r}")
+            elif Net.of(cf).inputs() != net.inputs() or Net.of(cf).outputs != net.outputs or cf.name != c.name:
+                ctx.violation("bench_file_roundtrip_io", f"to_file/from_file(.bench): io or name changed ({cf.name!r})")
+        import shutil
+
+        shutil.rmtree(d, ignore_errors=True)
+    else:
+        ok, text = ctx.call(cg.io.circuit_to_bench, c)
     if not ok:
         if net.has_x() and isinstance(text, ValueError):
             ctx.reject("x_constant")
@@ -259,7 +279,7 @@ def gates(counters, table, tier):
         for a in ("1", "2", "3"):
             if table.get(f"{t}/{a}", 0) < 3:
                 out.append(f"bench gate {t} with {a} operands seen {table.get(f'{t}/{a}', 0)} times")
-    for k in ("with_dff", "dff_chain", "kw:BUFF", "order:shuffled", "order:reverse", "write:with_constants", "write:no_constants", "write:constant_output", "write:input_output", "cmp:bench_roundtrip"):
+    for k in ("with_dff", "dff_chain", "kw:BUFF", "order:shuffled", "order:reverse", "write:with_constants", "write:no_constants", "write:constant_output", "write:input_output", "via_bench_file", "cmp:bench_roundtrip"):
         if counters.get(k, 0) < 5:
             out.append(f"{k} seen {counters.get(k, 0)} times")
     return out
